@@ -77,6 +77,8 @@ func TestVerifC01(t *testing.T) {
 	scs := []vr.Scenario{
 		c01Scenario("tdc-tcp-c2-id0", tOpt{Kind: "tdc-tcp", Callers: 2, IDs: []uint16{0, 0}, Srv: adv}, d),
 		c01Scenario("tdc-tcp-c3-wrap-skip", tOpt{Kind: "tdc-tcp", Callers: 3, IDs: []uint16{0xFFFF, 0xFFFF, 0x1234}, Srv: srvOpt{Reorder: true}, StartQid: 0xFFFE, SeedQueue: 2}, d3),
+		c01Scenario("tdc-tcp-c2-seq2-idwrap-inflight", tOpt{Kind: "tdc-tcp", Callers: 2, Seq: 2, IDs: []uint16{9, 9, 9, 9}, Srv: srvOpt{Reorder: true}, StartQid: 0xFFFF, RewindQid: true}, d),
+		c01Scenario("tdc-udp-c3-idwrap-inflight", tOpt{Kind: "tdc-udp", Callers: 3, Srv: srvOpt{Reorder: true}, StartQid: 0, RewindQid: true}, d3),
 		c01Scenario("tdc-udp-c2-cancel-dup-short", tOpt{Kind: "tdc-udp", Callers: 2, IDs: []uint16{0x1234, 0x1234}, Srv: srvOpt{Reorder: true, Dup: 1, Short: true}, CtxMode: []int{2, 0}}, d),
 		c01Scenario("tdc-tcp-c2-cancel-late", tOpt{Kind: "tdc-tcp", Callers: 2, Seq: 2, IDs: []uint16{1, 1, 1, 1}, Srv: srvOpt{Reorder: true}, CtxMode: []int{2, 0}}, d3),
 		c01Scenario("tdc-tcp-c1-seq2-exhaust", tOpt{Kind: "tdc-tcp", Callers: 1, Seq: 2, Srv: srvOpt{AnswerAll: true}, StartQid: 0xFFF0, SeedQueue: 100}, d),
